@@ -210,16 +210,25 @@ class _CompositeApply(Contract):
     inline_depth = 8
 
     def shapes(self):
-        return [{"P": p, "B": b, "A": a} for p in (0, 1) for b in (0, 1) for a in (0, 1)]
+        out = [{"P": p, "B": b, "A": a} for p in (0, 1) for b in (0, 1) for a in (0, 1)]
+        # a single un-batched point of shape (D,) (what flow.log_prob / a kernel hands over for one state): treated as a batch of one row
+        out += [{"P": 1, "B": 1, "A": a, "point": 1} for a in (0, 1)]
+        return out
 
     def setup(self, I, shape):
         _install_parts(I)
+        if shape.get("point") and self.which == "fit":
+            shape = dict(shape, point=0)
         assumed(I, "part transforms (periodic / bounded / affine) are row-wise maps: forward -> (FWD(row), LJF(row)), inverse -> (INV(row), LJI(row)), fit(x) = forward(x)[0] "
                    "(their own bodies are the subject of the Lean theorems and of the PartFit contracts)")
         n = z3.Int("n_rows")
         I.path.assume(n >= 1)
         xdt = Sym(z3.Const("dtype_of_x", Misc), "dtype")
         x = base_arr("x_in", "row", n, {"dtype": xdt})
+        if shape.get("point"):
+            D = z3.Int("n_dims")
+            I.path.assume(D >= 2)
+            x = base_arr("x_point", "real", D, {"dtype": xdt, "single_point": True})
         pm, bm = _mask("periodic_mask"), _mask("bounded_mask")
         o = Obj("CompositeTransform", {
             "xp": Mod("xp"), "device": NONE, "dtype": NONE,
@@ -237,12 +246,15 @@ class _CompositeApply(Contract):
         if not shape["B"]:
             o.absent.update({"bounded_mask", "_bounded_transform"})
             o.f.pop("bounded_mask"), o.f.pop("_bounded_transform")
+        if shape.get("point"):
+            row = z3.Const(f"row_of<{x.key}>", Row)
+            return Pre(o, [x], {}, ghost={"x": x, "x_at": (lambda kk, _r=row: _r), "pm": _mask_const(pm), "bm": _mask_const(bm), "shape": shape, "n": z3.IntVal(1), "xdt": xdt, "point": True})
         return Pre(o, [x], {}, ghost={"x": x, "x_at": x.at, "pm": _mask_const(pm), "bm": _mask_const(bm), "shape": shape, "n": n, "xdt": xdt})
 
     def post(self, I, pre, r):
         p, g = I.path, pre.ghost
         q, sh = self.qual, g["shape"]
-        tag = f"[periodic {'on' if sh['P'] else 'off'}, bounded {'on' if sh['B'] else 'off'}, affine {'on' if sh['A'] else 'off'}]"
+        tag = f"[periodic {'on' if sh['P'] else 'off'}, bounded {'on' if sh['B'] else 'off'}, affine {'on' if sh['A'] else 'off'}{', a single un-batched point' if g.get('point') else ''}]"
         i = z3.Int(fresh("row"))
         p.assume(z3.And(i >= 0, i < g["n"]), check=False)
         spec = spec_forward if self.which in ("forward", "fit") else spec_inverse
@@ -265,7 +277,8 @@ class _CompositeApply(Contract):
         p.prove(y.at(i) == want_r, f"{q}:C04:C03:{self.which} applies {order}, each on its own columns {tag}")
         p.prove(lj.at(i) == want_lj, f"{q}:C04:C03:log-Jacobian of {self.which} is the sum of the applied parts' log-Jacobians, each evaluated where that part was applied {tag}")
         # frame: the caller's array is not modified (the method works on a copy)
-        p.prove(g["x"].at(i) == g["x_at"](i), f"{q}:C04:the input array is left unchanged {tag}")
+        if not g.get("point"):
+            p.prove(g["x"].at(i) == g["x_at"](i), f"{q}:C04:C05:the input array is left unchanged (a kernel that holds z next to the log-density it was given must still hold that z) {tag}")
         allocs = [e for e in p.events if e[0] == "alloc"]
         p.prove(z3.BoolVal(all(isinstance(e[2], Sym) and e[2].e.eq(g["xdt"].e) for e in allocs)),
                 f"{q}:C04:C15:the accumulator of the log-Jacobian is allocated in the floating-point width of the data (not the namespace default) {tag}")
@@ -372,3 +385,48 @@ PartFitLogit = _mk_partfit("LogitTransform")
 def composite_roundtrip_lemma_static(tier):
     return composite_roundtrip_lemma()
 
+
+
+# ------------------------------------------------------------------------------------------ constant log-Jacobians are broadcast in the width of the data
+class ToUnitInterval(Contract):
+    """the affine rescaling of a bounded parameter to [0, 1]: its log-Jacobian is a constant broadcast over the rows"""
+    qual = "transforms:BoundedTransform.to_unit_interval"
+    properties = ("C04", "C15", "C03")
+    direction = "to"
+    doc = ("returns one log-Jacobian per row, equal to (minus, for the inverse direction) the stored scale log-Jacobian; the array it is broadcast over is "
+           "allocated with the dtype of the data: under torch, `float64 scalar * ones(n)` with the namespace-default float32 `ones` rounds the constant to "
+           "float32 (the C04 maps themselves are the subject of the Lean theorems)")
+
+    def must_return(self, shape):
+        return True
+
+    def setup(self, I, shape):
+        n = z3.Int("n_rows")
+        I.path.assume(n >= 1)
+        xdt = Sym(z3.Const("dtype_of_x", Misc), "dtype")
+        x = base_arr("x_in", "row", n, {"dtype": xdt})
+        scale = z3.Real("scale_log_abs_det_jacobian")
+        o = Obj("BoundedTransform", {"xp": Mod("xp"), "dtype": xdt, "lower": base_arr("lower", "real", z3.Int("n_dims")), "upper": base_arr("upper", "real", z3.Int("n_dims")),
+                                     "_denom": base_arr("denom", "real", z3.Int("n_dims")), "_scale_log_abs_det_jacobian": R(scale)})
+        return Pre(o, [x], {}, ghost={"n": n, "xdt": xdt, "scale": scale})
+
+    def post(self, I, pre, r):
+        p, g = I.path, pre.ghost
+        q = self.qual
+        ok = isinstance(r, Tup) and len(r.items) == 2 and isinstance(r.items[1], Arr)
+        p.prove(z3.BoolVal(ok), f"{q}:C04:returns (rows, log|det J| per row)")
+        if not ok:
+            return
+        lj = r.items[1]
+        i = z3.Int(fresh("row"))
+        sign = 1 if self.direction == "to" else -1
+        p.prove(z3.And(lj.n == g["n"], z3.Implies(z3.And(i >= 0, i < g["n"]), lj.at(i) == sign * g["scale"])),
+                f"{q}:C04:C03:one log-Jacobian per row, equal to {'' if sign == 1 else 'minus '}the scale log-Jacobian -sum(log(upper - lower))")
+        allocs = [e for e in p.events if e[0] == "alloc" and e[1] == "ones"]
+        p.prove(z3.BoolVal(bool(allocs) and all(isinstance(e[2], Sym) and e[2].e.eq(g["xdt"].e) for e in allocs)),
+                f"{q}:C04:C15:the constant log-Jacobian is broadcast over an array of the data's floating-point width (a namespace-default float32 `ones` rounds a float64 constant to float32 under torch)")
+
+
+class FromUnitInterval(ToUnitInterval):
+    qual = "transforms:BoundedTransform.from_unit_interval"
+    direction = "from"
